@@ -11,15 +11,16 @@ EQCASE = os.path.join(env.VERIF, 'vlib', 'eqcase.py')
 
 NONFATAL = ['equal', 'different', 'player_raises', 'extractor_raises', 'comparator_raises', 'bare_status']
 FATAL = ['exit', 'hang', 'late', 'hang_sigterm_ignored']
+IDLE_DEATH = 'die_idle'     # answers normally, then the idle worker is killed; the verdict of the NEXT recording is unspecified
 EXPECTED = {'equal': 'Equal', 'different': 'Different', 'player_raises': 'EqualizerFailure', 'extractor_raises': 'EqualizerFailure',
             'comparator_raises': 'EqualizerFailure', 'bare_status': 'Equal', 'exit': 'EqualizerFailure', 'hang': 'EqualizerFailure',
-            'late': 'EqualizerFailure', 'hang_sigterm_ignored': 'EqualizerFailure'}
+            'late': 'EqualizerFailure', 'hang_sigterm_ignored': 'EqualizerFailure', 'die_idle': 'Equal'}
 
 
 def expected_duration(case):
     t = case.get('timeout', 1.0)
     n_slow = sum(1 for b in case['behaviours'] if b in ('hang', 'late', 'hang_sigterm_ignored'))
-    n_exit = sum(1 for b in case['behaviours'] if b == 'exit')
+    n_exit = sum(1 for b in case['behaviours'] if b in ('exit', 'die_idle'))
     return 3.0 + n_slow * (t + 2.5) + n_exit * 1.5 + 0.2 * len(case['behaviours'])
 
 
